@@ -765,6 +765,79 @@ fn compress_small_case(idx: u64, obs: &mut Obs) {
     }
 }
 
+// ------------------------------------------------------------------------------------------
+// coverage-guided stage
+// ------------------------------------------------------------------------------------------
+
+/// Entry point of the libFuzzer target `c17_compress_nextlarger` (harness/vfuzz). Byte 0 selects the oracle:
+/// even = `check_compress` on the multiset of i32 values read from the following 4-byte groups (at most 300) with the
+/// class limit of byte 1 (1..=255; brute-force minimality scan when at most 10 distinct values);
+/// odd = `check_next_larger` on the functional graph given by byte pairs (character, next larger), presented in input
+/// order, with byte 1 choosing whether non-existent targets are dropped and which characters do not exist.
+pub fn fuzz_one(data: &[u8], obs: &mut Obs) {
+    if data.len() < 2 {
+        return;
+    }
+    let (sel, arg, rest) = (data[0], data[1], &data[2..]);
+    if sel % 2 == 0 {
+        let values: Vec<i32> = rest.chunks_exact(4).take(300).map(|c| i32::from_le_bytes([c[0], c[1], c[2], c[3]])).filter(|v| *v != i32::MIN).collect();
+        let m = arg.max(1);
+        let distinct = values.iter().collect::<BTreeSet<_>>().len();
+        check_compress(&values, m, distinct <= 10, obs);
+    } else {
+        let mut edges: BTreeMap<u8, u8> = BTreeMap::new();
+        let mut order: Vec<(u8, u8)> = vec![];
+        for p in rest.chunks_exact(2).take(256) {
+            // a character has one next-larger link: later pairs for the same character are ignored
+            if let std::collections::btree_map::Entry::Vacant(e) = edges.entry(p[0]) {
+                e.insert(p[1]);
+                order.push((p[0], p[1]));
+            }
+        }
+        let mut missing: BTreeSet<u8> = BTreeSet::new();
+        if arg & 2 != 0 {
+            for t in edges.values() {
+                if t % 7 == arg % 7 {
+                    missing.insert(*t);
+                }
+            }
+        }
+        check_next_larger(&edges, &order, &missing, arg & 1 != 0, obs);
+    }
+}
+
+/// Seed corpus for the libFuzzer target: small multisets, arithmetic progressions, extreme values; chains, cycles, fans.
+pub fn fuzz_seeds() -> vcore::fuzzglue::Seeds {
+    let mut inputs: Vec<Vec<u8>> = vec![];
+    let comp = |m: u8, vals: &[i32]| -> Vec<u8> {
+        let mut v = vec![0u8, m];
+        for x in vals {
+            v.extend_from_slice(&x.to_le_bytes());
+        }
+        v
+    };
+    inputs.push(comp(1, &[1, 1, 3]));
+    inputs.push(comp(2, &[0, 10, 11, 30, 31, 32]));
+    inputs.push(comp(3, &[-5, -4, 0, 4, 5, 100, 101]));
+    inputs.push(comp(15, &(0..40).map(|i| i * 65536 + (i % 3)).collect::<Vec<_>>()));
+    inputs.push(comp(4, &[i32::MAX, i32::MAX - 1, -i32::MAX, 0, 1 << 30, -(1 << 30), 1500 << 20, 1600 << 20]));
+    inputs.push(comp(255, &(0..300).map(|i| i * 7919).collect::<Vec<_>>()));
+    let nl = |arg: u8, edges: &[(u8, u8)]| -> Vec<u8> {
+        let mut v = vec![1u8, arg];
+        for (a, b) in edges {
+            v.push(*a);
+            v.push(*b);
+        }
+        v
+    };
+    inputs.push(nl(0, &[(1, 2), (2, 3), (3, 1)]));
+    inputs.push(nl(1, &[(1, 2), (2, 3), (3, 4), (9, 9)]));
+    inputs.push(nl(3, &[(10, 20), (20, 30), (40, 30), (30, 30)]));
+    inputs.push(nl(1, &(0..=255u8).map(|c| (c, 7)).collect::<Vec<_>>()));
+    inputs.push(nl(0, &(0..=255u8).map(|c| (c, c.wrapping_add(1))).collect::<Vec<_>>()));
+    vcore::fuzzglue::Seeds { inputs, dictionary: vec![] }
+}
+
 fn compress_random_case(rng: &mut Rng, obs: &mut Obs) {
     let n = match rng.below(10) {
         0 => rng.range_usize(0, 4),
